@@ -584,6 +584,15 @@ def run(ctx):
         st = small_settings(interp=interp, order=order)
         specs = make_specs(rng, ds, per_kind=1 if quick else 3, volume_orders=1 if quick else 3)
         calc_stage(ctx, rd, "synthetic%d" % si, ds, st, specs, guard_cases=guard_cases)
+    # volume-order probe with the node-subsampling interpolators (lagrange/krogh pick every k-th volume in FILE order,
+    # so an implementation that accepts re-listed blocks is most likely to give other numbers here)
+    for interp in (("lagrange", "krogh") if not quick else (rng.choice(["lagrange", "krogh"]),)):
+        nv = rng.choice([6, 7])
+        ds = synth.make_dataset(rng, nv=nv, nq=3, na=2, spectrum="wiggly")
+        base = identity_spec(ds)
+        vps = [list(reversed(range(nv)))] + [rand_perm(rng, nv) for _ in range(2 if quick else 5)]
+        calc_stage(ctx, rd, "subsampled_%s" % interp, ds, small_settings(interp=interp, order=3),
+                   [("volume-order", dict(base, vperm=vp)) for vp in vps], guard_cases=guard_cases)
     # probe: nearly (not exactly) equal axial strain fractions e2, e3
     ds = degenerate_lattice_dataset(rng)
     base = identity_spec(ds)
